@@ -40,7 +40,7 @@ class CodeGenerator:
             # a file torn by an older version may have the first but not
             # the second
             return bool(module) and getattr(
-                module, 'BISTURI_PACKET_COOKIE', None
+                module, 'BISTURI_PACKET_COOKIE_AT_END', None
             ) == cookie and (
                 not self.generate_for_pack or hasattr(module, 'pack_impl')
             ) and (
